@@ -32,6 +32,11 @@ CLAIMED = {
     text='For airborne_position_with_reference and surface_position_with_reference, any message and any finite reference: no panic; every returned latitude is in [-90, 90] and no coordinate is NaN; every returned position passed |latitude - reference| <= half the zone height of its parity (360/60, 360/59; surface 90/60, 90/59) and |longitude - reference| <= half of Z / max(NL(decoded latitude) - i, 1) for every NL in 1..59 (Z = 360 or 90), the gates being on the very expressions returned; NL is only ever applied to the decoded latitude. This decides the second sentence of the property (absent or within half a zone of the reference, latitude in range).',
     note='Static rule check. Not decided: the 10 m exactness for references within the unambiguous range (correct rounding of floor(0.5 + ref/d - cpr) over a continuum of references). Trusted: MIR, abstract interpreter (a path fact is recorded only for comparisons whose operands cannot be NaN), floor/fabs contracts, C04 rule N1 for the range of nl().',
     ref='DESIGN.md §7 C05'),
+ 'C06': dict(level='other', engine='absint+dataflow',
+    technique='who-touches / who-calls rules on MIR (single use of the aircraft table, borrowed places at every call site), path-sensitive abstract interpretation of decode_position for an arbitrary cache entry with gate comparisons remembered as trace tags, origin tags on decoded positions',
+    text='Isolation: decode_position uses the aircraft table exactly once, as entry(*icao24).or_insert(..) bound to `latest`; *reference is only stored after the caller\'s callback returned true; all six workspace call sites pass the message and the address of one record (ADSB.message/icao24, ControlField.me/aa); airborne_position receives (cached opposite-parity message of this entry, current message) and the reference decode uses this entry\'s previous position. Gates: every state storing a position into an airborne message saw timestamp - t_pair < 0 false; positions from an even/odd pair saw timestamp - t_pair < c with c <= 10; positions decoded against the previous position saw timestamp - latest.timestamp < c with c <= 180; when a previous position exists, distance > c was false with c <= 50 km; surface positions were decoded against the previous position with distance < c, c <= 1 km, or against the receiver reference. The extracted constants are printed in the evidence.',
+    note='Static rule check of the anchored mechanism. Isolation + pairing decide the non-interference sentence (with a fixed reference, the inputs and outputs of the function for one aircraft are its own message, its own cache entry and the reference). Not decided: that every stored position is within 25 m of the true one (needs the numerical argument relating the windows to the distance flown). Trusted: MIR, abstract interpreter, BTreeMap::entry library fact, the documented parameters.',
+    ref='DESIGN.md §7 C06'),
  'C07': dict(level='other', engine='shapes',
     technique='may/must dataflow over the MIR of every Serialize impl (derived and hand-written) composing JSON shapes per enum-variant combination; serde private-serializer acceptance tables; field provenance of keys; bit positions of source fields from the abstract interpreter',
     text='Decides for every reachable combination of enum variants (not for sampled frames): the value is serialisable (nothing reached through #[serde(flatten)] or an internally tagged newtype variant uses an entry point FlatMapSerializer / TaggedSerializer rejects), the root is one object, no key is emitted twice, the df tag of DF 0,4,5,11,16,17,18,20,21 is the variant\'s deku id, icao24 exists and is fed by the address/parity field resp. the announced address read at bit 8, both written with one lower-hex template; TimedMessage always writes frame through hex::encode; no pretty writer is used.',
